@@ -497,8 +497,8 @@ pub fn run(ctx: &Ctx) -> ! {
         };
         vcore::finish(ctx, report, fin());
     }
-    let n = ctx.pick(12_000u64, 300_000);
-    let nfs = ctx.pick(600u64, 10_000);
+    let n = ctx.pick(40_000u64, 600_000);
+    let nfs = ctx.pick(2000u64, 20_000);
     let c2 = ctx.clone();
     let report = vcore::run_parallel(
         ctx,
